@@ -504,33 +504,33 @@ def rule_map(ctx):
             good = bool(c.gargs) and c.gargs[0] == first
             R.ob('M2-forward', b.path + '->' + c.name, good, 'forwards with its key type first' if good else 'forwards with type arguments %s' % c.gargs, ctx.where(b, c.bb), props=P)
     R.floor('M2', 'TypeToAnyMap accessors', n, 9, props=P)
-    # M3
-    ens = [b for b in inh if any(c.qname.endswith('Entry::and_modify') or c.name == 'and_modify' for c in b.calls.values())]
+    # M3: an existing state value is replaced only when its type differs; a missing one is created
+    ens = [b for b in inh if any(c.name in ('and_modify', 'entry') for c in b.calls.values())]
     for b in ens:
         vty = b.generics[1] if len(b.generics) > 1 else None
-        good = False
-        why = 'replacement closure not found'
-        for cb in F.closures_of(b):
-            if not cb.stores:
-                continue
-            for (bb, si, pl, rv, ln) in cb.stores:
-                req = cb.edges_required_for(bb)
-                ok_guard = False
-                for gd in req:
-                    if gd.kind == 'bool' and gd.truth() is False:
-                        for sc in gd.subject_calls():
-                            if sc.name == 'is' and sc.gargs and sc.gargs[-1] == vty and (sc.self_ty or sc.impl_self or '').startswith('dyn '):
-                                ok_guard = True
-                            elif sc.name == 'is' and sc.gargs and sc.gargs[-1] == vty:
-                                ok_guard = True
-                good = ok_guard
+        repl = []  # (body, block) of replacement operations
+        for x in F.with_closures(b):
+            if x.kind == 'Closure':
+                for (bb, si, pl, rv, ln) in x.stores:
+                    if all(o.kind == 'arg' and o.key == 2 for o in x.orig_local(pl[0])):
+                        repl.append((x, bb))
+            for c in x.calls.values():
+                if c.name == 'insert' and 'OccupiedEntry' in (c.impl_self or ''):
+                    repl.append((x, c.bb))
+        good = bool(repl)
+        why = 'no replacement of an existing value found'
+        for x, bb in repl:
+            req = x.edges_required_for(bb)
+            ok_guard = any(gd.kind == 'bool' and gd.truth() is False and any(sc.name == 'is' and sc.gargs and sc.gargs[-1] == vty for sc in gd.subject_calls()) for gd in req)
+            if not ok_guard:
+                good = False
                 why = 'an existing value is replaced without testing that its type differs from the requested one'
         R.ob('M3-replace', b.path, good, 'an existing state value is replaced only if it is not of the requested type' if good else why, ctx.where(b), props=P)
-        oi = [c for c in b.calls.values() if c.name in ('or_insert_with', 'or_insert', 'or_default')]
+        oi = [c for x in F.with_closures(b) for c in x.calls.values() if c.name in ('or_insert_with', 'or_insert', 'or_default') or (c.name == 'insert' and 'VacantEntry' in (c.impl_self or ''))]
         R.ob('M3-vacant', b.path, bool(oi), 'a missing state value is created' if oi else 'vacant entry not filled', ctx.where(b), props=P)
-        ty_is = [c for cb in F.closures_of(b) for c in cb.calls.values() if c.name == 'is']
+        ty_is = [c for x in F.with_closures(b) for c in x.calls.values() if c.name == 'is']
         pit = [c for c in ty_is if 'Box<' in (c.self_ty or '')]
-        R.ob('M3-unboxed', b.path, not pit, 'the type test looks at the value inside the box' if not pit else 'type test applied to the Box itself', ctx.where(b), props=P)
+        R.ob('M3-unboxed', b.path, not pit and bool(ty_is), 'the type test looks at the value inside the box' if not pit and ty_is else 'type test missing or applied to the Box itself', ctx.where(b), props=P)
     R.floor('M3', 'ensure-inserted helper', len(ens), 1, props=P)
     # M4 / M5
     rw = [b for b in F.bodies.values() if b.impl_trait == 'pie::Resource' and b.impl_self == 'K' and b.crate == 'pie' and b.kind == 'AssocFn' and 'resource::map' in b.id]
